@@ -236,3 +236,21 @@ package deps
 //@   ensures true
 //@ trusted func time.Since(t time.Time) (d time.Duration)
 //@   ensures true
+//@
+//@ # ---- query events (C15) ----
+//@ # a channel that only the code under contract closes and nobody sends on; closing it twice would panic
+//@ trusted func builtin.closeSignal(c chan struct{})
+//@   requires once: !chclosed[ref(c)]
+//@   modifies ghost.chclosed
+//@   ensures chclosed == store(old(chclosed), ref(c), true)
+//@ # Drain removes interest; messages in flight are still delivered, the channel is never closed by NATS
+//@ ghostvar drained arrb
+//@ trusted func (s *nats.Subscription) Drain() (err error)
+//@   modifies ghost.drained
+//@   ensures drained == store(old(drained), ref(s), true)
+//@ trusted func builtin.selectQuery(index int, ok bool, m *nats.Msg, d struct{})
+//@   ensures imp(index == 0, m != nil)
+//@ ghostvar tqadded int
+//@ trusted func (q *timerqueue.Queue) Add(v interface{})
+//@   modifies ghost.tqadded
+//@   ensures tqadded == old(tqadded) + 1
